@@ -35,7 +35,7 @@ CRATE_SRC = os.path.join(vlib.VERIF, "rtkani")
 WORK = os.path.join(vlib.WORK_DIR, "rtkani")
 MAX_PARALLEL = int(os.environ.get("VERIF_RTKANI_JOBS", "6"))
 MEM_GB = 12
-TIMEOUT = {"quick": 600, "thorough": 1800}
+TIMEOUT = {"quick": 1200, "thorough": 1800}
 NSLOTS = 12
 
 RT = "crates/guest-rust/src/rt/"
@@ -713,6 +713,19 @@ def run_harness(prop: str, h: dict, crate: str, timeout: int, env: dict) -> dict
     return res
 
 
+def _write_replay(prop_id: str, name: str, payload: dict) -> str:
+    """Counterexamples found on a scratch copy of the repository (VERIF_REPO=..., i.e. mutation self-tests) go to
+    /verif/work/mut_replays, not to /verif/replays."""
+    if os.path.abspath(vlib.REPO) == "/repo":
+        return vlib.write_replay(prop_id, name, payload)
+    d = os.path.join(vlib.WORK_DIR, "mut_replays")
+    os.makedirs(d, exist_ok=True)
+    path = os.path.join(d, "%s_%s.json" % (prop_id, name))
+    with open(path, "w") as f:
+        json.dump(payload, f, indent=1, sort_keys=True, default=str)
+    return path
+
+
 def _env() -> dict:
     env = vlib.cargo_env()
     env.pop("CARGO_TARGET_DIR", None)
@@ -786,7 +799,7 @@ def run(prop_id: str, tier: str, seed: int) -> vlib.Outcome:
                        "reproduced_checks": sorted(set(first) & again), "kani_concrete_playback_test": r.get("playback_test"),
                        "cmd": r.get("cmd"), "leak_check": bool(h.get("leak")),
                        "how_to_replay": "/verif/check %s --replay <this file>" % prop_id}
-            path = vlib.write_replay(prop_id, "rtkani_" + h["name"], payload)
+            path = _write_replay(prop_id, "rtkani_" + h["name"], payload)
             nat = r.get("native") or {"verdict": "none", "detail": "not attempted"}
             common = sorted(set(first) & again)
             user_asserts = all(".assertion." in first[d]["id"] and not first[d]["location"].startswith("../") for d in common)
